@@ -1,10 +1,14 @@
 #!/bin/sh
-# Build the whole Coq development (full .vo build).  Usage: ./mk.sh [make args]
+# Build the Coq development (full .vo build).
+#   ./mk.sh                      everything (setup, thorough tier)
+#   ./mk.sh Props/C06.vo ...     only the given targets and what they depend on (what a check does)
 # _CoqProject is regenerated from the files on disk so that adding a file needs no edit here.
+# Every coqc runs under a time limit and an address-space limit so that one diverging proof
+# cannot wedge the machine; the lock only serialises writers of the .vo files.
 set -e
 cd "$(dirname "$0")"
 exec 9>.build.lock
-flock 9
+flock -w ${COQ_LOCK_WAIT:-1500} 9 || { echo "mk.sh: could not get the build lock" >&2; exit 75; }
 {
   echo "-Q . GS"
   echo "-arg -w -arg -notation-overridden,-deprecated-hint-without-locality,-deprecated-instance-without-locality,-ambiguous-paths,-deprecated-syntactic-definition"
@@ -17,4 +21,5 @@ else
   rm -f _CoqProject.new
 fi
 [ -f Makefile.coq ] || coq_makefile -f _CoqProject -o Makefile.coq >/dev/null
-exec timeout ${COQ_MAKE_TIMEOUT:-3000} make -f Makefile.coq -j${COQ_JOBS:-16} "$@"
+ulimit -v ${COQ_MEM_KB:-16000000} 2>/dev/null || true
+exec timeout ${COQ_MAKE_TIMEOUT:-3000} make -f Makefile.coq -j${COQ_JOBS:-16} COQC="timeout ${COQ_FILE_TIMEOUT:-900} coqc" "$@"
